@@ -56,6 +56,17 @@ fn digest(buf: &Buffer) -> Vec<i64> {
         v.extend([-2, 0, 0, 0]);
         return v;
     }
+    // Buffer::get_char subtracts the layer offset: a loaded layer offset of i32::MIN overflows there. That is after the
+    // load returned (not a loader failure): reported as cells = -3.
+    let sums = std::panic::catch_unwind(std::panic::AssertUnwindSafe(|| cell_sums(buf, w, h)));
+    match sums {
+        Ok((s1, s2, s3)) => v.extend([(w as i64) * (h as i64), s1, s2, s3]),
+        Err(_) => v.extend([-3, 0, 0, 0]),
+    }
+    v
+}
+
+fn cell_sums(buf: &Buffer, w: i32, h: i32) -> (i64, i64, i64) {
     let m: i64 = 1_000_000_007;
     let (mut s1, mut s2, mut s3, mut i) = (0i64, 0i64, 0i64, 1i64);
     for y in 0..h {
@@ -76,8 +87,7 @@ fn digest(buf: &Buffer) -> Vec<i64> {
             }
         }
     }
-    v.extend([(w as i64) * (h as i64), s1, s2, s3]);
-    v
+    (s1, s2, s3)
 }
 
 fn make(args: &[&str]) -> Vec<i64> {
@@ -91,6 +101,9 @@ fn make(args: &[&str]) -> Vec<i64> {
     let style: u32 = args[6].parse().unwrap();
     let mut buf = Buffer::new((w, h));
     buf.ice_mode = if seed & 1 == 0 { IceMode::Ice } else { IceMode::Blink };
+    if ext == "ata" {
+        buf.buffer_type = icy_engine::BufferType::Atascii;
+    }
     if opt.save_sauce {
         let mut s = SauceData::default();
         s.title = SauceString::from("verif title");
